@@ -47,6 +47,7 @@ import AutosarVerif.Lemmas.Dup
 import AutosarVerif.Lemmas.DupWitness
 import AutosarVerif.Lemmas.DupFaithful
 import AutosarVerif.Lemmas.DupFaithfulWitness
+import AutosarVerif.Lemmas.MergeKeeps
 
 namespace AV.C13
 open AV.W
@@ -202,5 +203,13 @@ theorem C13_duplicate_faithful_nonvacuous : type_of% @AV.W.dupW1_faithful := @AV
 /-- the hypothesis on the root element is necessary = known finding c13:duplicate-drops-root-attributes-and-comment as a negation on a reachable world
 `theorem dup_root_comment_not_copied : (opDup mvSpec nameEnv [] dupW1c 0).2.isOk = true ∧ ((opDup mvSpec nameEnv [] dupW1c 0).1.models.map fun m => m.rootHdr.comment) = [some [120], none]` -/
 theorem C13_witness_duplicate_drops_root_comment : type_of% @AV.W.dup_root_comment_not_copied := @AV.W.dup_root_comment_not_copied
+
+
+/-! ### added at the end of the third session (proof pack LM3): restated by name
+(`type_of%` keeps the statement identical to the lemma; the signature is quoted in the comment) -/
+
+/-- whatever `duplicate()` answers, the element ids of different models stay disjoint
+`theorem opDup_sep' (w : World) (k : Nat) (hw : WInv S vOk w) (hs : SepInv w) (hpos : 0 < w.nextId) : SepInv (opDup S V rootAttrs w k).1` -/
+theorem C13_duplicate_keeps_ids_of_models_apart : type_of% @AV.W.opDup_sep' := @AV.W.opDup_sep'
 
 end AV.C13
